@@ -19,6 +19,7 @@
       by event): numbering and persist-before-wire over ALL event histories.
 -/
 import Qfx.Lemmas.ConcC02
+import Qfx.Lemmas.SessC02
 import Qfx.Gen.Facts
 open Qfx Qfx.Conc
 
@@ -180,3 +181,136 @@ theorem C02_send_path_functions :
     Gen.sendPathFunctions =
       ["EnqueueBytesAndSend", "SendAppMessages", "dropAndReset", "dropAndSendInReplyTo", "dropQueued", "persist",
        "prepMessageForSend", "queueForSend", "sendInReplyTo", "sendQueued"] := by decide
+
+/-! ## (B) the sequential layer: the session model `Qfx.Sess`, all event histories -/
+
+namespace C02seq
+open Qfx.Sess Qfx.Sess.C02
+
+/-- the monitor state agrees with the session: nothing violated, same next outbound number, persistence as configured,
+    every queued message is a replay or has been saved -/
+def Good (p : Bool) (g : G2) (s : Sess) : Prop :=
+  g.ok = true ∧ g.S = s.store.sender ∧ s.cfg.persist = p ∧ (p = true → ∀ m ∈ s.toSend, covered g m = true)
+
+/-- the concatenated observations of a history -/
+def traceOf (s : Sess) : List Sess.Ev → List Obs
+  | [] => []
+  | e :: es => (step s e).2.1 ++ traceOf (step s e).1 es
+
+def runEvents (s : Sess) : List Sess.Ev → Sess
+  | [] => s
+  | e :: es => runEvents (step s e).1 es
+
+end C02seq
+open C02seq Qfx.Sess Qfx.Sess.C02 in
+/-- one event, any state, any event: the monitor accepts the event's observations and stays in agreement -/
+theorem C02_seq_step (p : Bool) (s : Sess) (e : Sess.Ev) (g : G2) (h : Good p g s) :
+    Good p ((step s e).2.1.foldl (g2Step p) g) (step s e).1 := by
+  have h0 : K p g s.clearLog := by
+    unfold Good at h
+    unfold K g2Of Sess.clearLog
+    simpa using h
+  have h1 := K_stepCore p g s.clearLog e h0
+  unfold step
+  simp only []
+  generalize stepCore s.clearLog e = r at h1
+  obtain ⟨s', status⟩ := r
+  simp only [] at h1 ⊢
+  unfold K g2Of at h1
+  exact h1
+
+open C02seq Qfx.Sess Qfx.Sess.C02 in
+theorem C02_seq_run (p : Bool) (s : Sess) (evs : List Sess.Ev) (g : G2) (h : Good p g s) :
+    Good p ((traceOf s evs).foldl (g2Step p) g) (runEvents s evs) := by
+  induction evs generalizing s g with
+  | nil => exact h
+  | cons e es ih =>
+    simp only [traceOf, runEvents, List.foldl_append]
+    exact ih _ _ (C02_seq_step p s e g h)
+
+open C02seq Qfx.Sess Qfx.Sess.C02 in
+/-- **C02, sequential layer**: every configuration (role, BeginString, reset options, persistence on or off, …), every
+    initial pair of counters, every finite history of events (connects, inbound messages of any kind — Logon with or
+    without ResetSeqNumFlag, ResendRequests, TestRequests, garbage —, timeouts, application sends, flushes, disconnects,
+    stops, session-time changes): every `saved n` happens at exactly the tracked next outbound number, which then
+    becomes n+1 (`incS` likewise without storing, `reset` ⇒ 1); with persistence every first-time write to the
+    connection (PossDupFlag ≠ Y, administrative or application) of number n, MsgType k comes after the store saved
+    (n, k); and the tracked number at the end is the store's next outbound number. -/
+theorem C02_seq (cfg : Cfg) (s0 t0 : Int) (evs : List Sess.Ev) :
+    c02SeqAccepts cfg.persist s0 (traceOf (initSess cfg s0 t0) evs) = true ∧
+    c02SeqSender cfg.persist s0 (traceOf (initSess cfg s0 t0) evs) = (runEvents (initSess cfg s0 t0) evs).store.sender := by
+  have hg : Good cfg.persist (G2.init s0) (initSess cfg s0 t0) :=
+    ⟨rfl, rfl, rfl, fun _ m hm => by simp [initSess] at hm⟩
+  obtain ⟨a, b, _, _⟩ := C02_seq_run cfg.persist (initSess cfg s0 t0) evs (G2.init s0) hg
+  exact ⟨a, b⟩
+
+open C02seq Qfx.Sess Qfx.Sess.C02 in
+/-- … and what is still queued after any history is covered too: nothing unsaved can ever be flushed later -/
+theorem C02_seq_queue_saved (cfg : Cfg) (s0 t0 : Int) (evs : List Sess.Ev) (hp : cfg.persist = true) :
+    ∀ m ∈ (runEvents (initSess cfg s0 t0) evs).toSend,
+      covered ((traceOf (initSess cfg s0 t0) evs).foldl (g2Step cfg.persist) (G2.init s0)) m = true := by
+  have hg : Good cfg.persist (G2.init s0) (initSess cfg s0 t0) :=
+    ⟨rfl, rfl, rfl, fun _ m hm => by simp [initSess] at hm⟩
+  obtain ⟨_, _, _, d⟩ := C02_seq_run cfg.persist (initSess cfg s0 t0) evs (G2.init s0) hg
+  exact d hp
+
+/-! ### the sequential monitor is not vacuous -/
+section
+open Qfx.Sess Qfx.Sess.C02
+def c02m (k : String) (n : Int) (dup : Bool) : OutMsg := { kind := k, seq := n, f := if dup then [(43, "Y")] else [] }
+#guard c02SeqAccepts true 5 [.saved 5 "D" true, .wire (c02m "D" 5 false), .saved 6 "0" true, .wire (c02m "0" 6 false)] == true
+#guard c02SeqAccepts true 5 [.saved 6 "D" true] == false                                   -- a gap
+#guard c02SeqAccepts true 5 [.saved 5 "D" true, .saved 5 "D" true] == false                -- a repeat
+#guard c02SeqAccepts true 5 [.wire (c02m "D" 5 false)] == false                            -- written before saved
+#guard c02SeqAccepts true 5 [.saved 5 "D" true, .wire (c02m "8" 5 false)] == false         -- saved as another message
+#guard c02SeqAccepts true 5 [.wire (c02m "D" 2 true)] == true                              -- replays are exempt
+#guard c02SeqAccepts false 5 [.incS, .wire (c02m "D" 5 false)] == true                     -- persistence off
+#guard c02SeqAccepts true 5 [.saved 5 "D" true, .reset, .saved 1 "A" true] == true         -- a reset starts at 1
+#guard c02SeqAccepts true 5 [.saved 5 "D" true, .reset, .saved 6 "A" true] == false
+
+/-- non-vacuity of the theorem: an acceptor logs on, the application sends twice, a flush writes both -/
+def c02Logon : InMsg :=
+  { f := [(8, "FIX.4.2"), (35, "A"), (49, "TGT"), (56, "SND"), (34, "1"), (52, "@0"), (98, "0"), (108, "30")] }
+#guard ((C02seq.traceOf (initSess {} 1 1) [.connect, .incomingMsg (some c02Logon), .send (mkOut "D" []), .send (mkOut "D" []),
+            .flush]).filterMap (fun o => match o with
+              | .saved n k _ => some (s!"saved {n} {k}") | .wire m => some (s!"wire {m.seq} {m.kind}") | _ => none))
+          == ["saved 1 A", "wire 1 A", "saved 2 D", "saved 3 D", "wire 2 D", "wire 3 D"]
+end
+
+/-- what the sequential layer does NOT give (false of the model, hence of the code): per-epoch wire order and
+    store-retrievability at the moment of the write when a Logon-triggered reset (`handleLogon`: ResetOnLogon or a
+    received ResetSeqNumFlag) happens while first-time messages are still queued — that reset does not drop the queue. -/
+def C02_seq_store_has_message_at_wire_full : Prop :=
+  ∀ (cfg : Sess.Cfg) (s0 t0 : Int) (evs : List Sess.Ev) (e : Sess.Ev), cfg.persist = true →
+    ∀ m, Sess.Obs.wire m ∈ (Sess.step (C02seq.runEvents (Sess.initSess cfg s0 t0) evs) e).2.1 →
+      Sess.C02.firstTime m = true → ∃ n, (Sess.step (C02seq.runEvents (Sess.initSess cfg s0 t0) evs) e).1.store.lookup m.seq = some n
+
+/-- witness (interpreter-checked; String functions do not reduce in the kernel): initiator, one application message
+    queued while the Logon is outstanding, the peer's Logon carries ResetSeqNumFlag=Y: the store is reset, the queued
+    message 2 is flushed although the store no longer holds it, and number 2 is handed out again -/
+def c02ResetLogon : Sess.InMsg :=
+  { f := [(8, "FIX.4.2"), (35, "A"), (49, "TGT"), (56, "SND"), (34, "1"), (52, "@0"), (98, "0"), (108, "30"), (141, "Y")] }
+#guard ((C02seq.traceOf (Sess.initSess { initiator := true } 1 1)
+          [.connect, .send (Sess.mkOut "D" []), .incomingMsg (some c02ResetLogon), .flush,
+           .send (Sess.mkOut "D" []), .send (Sess.mkOut "D" []), .flush]).filterMap (fun o => match o with
+              | .saved n k _ => some (s!"saved {n} {k}") | .wire m => some (s!"wire {m.seq} {m.kind}")
+              | .reset => some "reset" | _ => none))
+        == ["saved 1 A", "wire 1 A", "saved 2 D", "reset", "wire 2 D", "saved 1 D", "saved 2 D", "wire 1 D", "wire 2 D"]
+
+/-!
+Clause checklist (properties.jsonl C02 → theorems)
+* next unused number, n, n+1, … no gap no repeat, whichever goroutines : C02_all_schedules (clauses consecutive, sender_next), for ALL schedules
+                                                                          of the lock-level model; C02_seq (sequential model, all histories)
+* first-time transmissions on the wire in increasing order             : C02_all_schedules (clause wire_order, per epoch)
+* while logged on every assigned number is transmitted                 : NOT proved (liveness; depends on the messageEvent wake-up). Sampled by the
+                                                                          stress harness (every accepted send is seen on the wire before the round ends).
+* bytes under n retrievable from the store no later than the wire      : C02_all_schedules (clause persist_before_wire) + C02_final_store;
+                                                                          C02_seq / C02_seq_queue_saved (number, MsgType, resend verdict of the saved message);
+                                                                          byte identity is the codec family's business (C10/C11)
+* store's next outbound number one past the highest handed out         : C02_final_store, C02_seq (second conjunct)
+* no first-time message between the replayed ones                      : C02_all_schedules (clauses replay_exclusive, replay_lock), C02_resend_lock_exclusive
+* the theorem is false without the locks                               : C02_false_without_sendMutex, C02_false_without_resendMutex, C02_false_with_late_persist
+* tie of the programs to the source                                    : C02_skel_* (8 obligations on regenerated skeletons), C02_send_path_functions
+* assumed, not proved: Go memory model; sync.Mutex / sync.RWMutex semantics as modelled (a superset of Go's schedules); atomicity at the granularity
+  of lock operations and protected actions; store operations succeed; schedules of the real engine are only sampled (stress harness `conc`)
+-/
